@@ -121,6 +121,19 @@ def _run(tier: str) -> Run:
             r5.check(not low and out.value.dtype == 'float64', inst, loc(fi),
                      {'float32_operations': low, 'result_dtype': out.value.dtype}, key=f'conversion.tof:{name}:single-precision-op')
 
+    # ---- R7: single precision over the whole quantified box -------------------
+    r7 = run.rule('R7', 'float32 inputs anywhere in 1e-9..1e9 (SI) in any unit of the grid: whenever the exact result is a normal float32, no '
+                        'power-product intermediate overflows or drops below the magnitude (7e-41) where a subnormal still has 1e-5 accuracy', 9)
+    from checks.magrule import WIDE, worst_f32_given_result
+    run.extra['single_precision_box_SI'] = {k: list(v) for k, v in WIDE.items()}
+    for name in KERNELS:
+        fi = repo.func('conversion.tof', name)
+        worst, n_runs, n_checked = worst_f32_given_result(repo, fi, corners=tier == 'quick')
+        if n_runs == 0:
+            raise AnalysisError(f'{fi.fq}: parameters outside the table of ranges')
+        r7.check(worst is None, name, (worst or {}).get('where') or loc(fi),
+                 {'unit_assignments': n_runs, 'intermediates_bounded': n_checked, 'worst': worst}, key=f'conversion.tof:{name}:f32-box')
+
     # ---- R6: kernels are history-free -----------------------------------------
     r6 = run.rule('R6', 'kernels write to no module-level state and hand out no memoised object', 9)
     history_free(repo, [repo.func('conversion.tof', n) for n in KERNELS], r6)
